@@ -60,8 +60,10 @@ Section C05.
   Proof. exact (@keeps_full P V L lrn c). Qed.
 
   (* When the run has stopped: the goal was evaluated to True, or cancellation
-     happened (inside a wait, [Cancel], or inside _get_futures after j
-     submissions of a batch, [SubmitCancel j]), or the stop is the error stop of a point over its retry limit;
+     happened (inside a wait, [Cancel]; inside _get_futures after j
+     submissions of a batch, [SubmitCancel j]; or inside _process_futures
+     between two iterations of its loop, e.g. when learner.tell returns,
+     [WaitCancel done]), or the stop is the error stop of a point over its retry limit;
      learner.remove_unfinished() was called, exactly once, and after it only
      cancel() calls, consumed results and tells happened (no ask, no
      submission); every evaluation ever submitted was consumed or had cancel()
@@ -70,7 +72,7 @@ Section C05.
     let s := reach lrn c l0 evs in
     ph s = Stopped w cl -> w <> NoWorkers ->
     (w = GoalMet -> In (Goal true) evs) /\
-    (w = Cancelled -> In Cancel evs \/ exists j, In (SubmitCancel j) evs) /\
+    (w = Cancelled -> In Cancel evs \/ (exists j, In (SubmitCancel j) evs) \/ exists d, In (WaitCancel d) evs) /\
     (forall p, w = Failed p -> c_raise c = true /\ c_retries c < nerr p (tr s)) /\
     (exists t1 t2, tr s = t1 ++ TRemove :: t2 /\
        (forall e, In e t1 -> (exists f, e = TCancel f) \/ (exists f q o, e = TDone f q o) \/ (exists q x y, e = TTell q x y)) /\
@@ -108,6 +110,20 @@ Example C05_example_interrupt_in_submit :
   ph s = Stopped Cancelled true /\
   history s = [TAsk 3 [(0, 0); (1, 1); (2, 2)]; TSubmit 0 0 0; TRemove; TCancel 0] /\
   pend s = [(0, 0)].
+Proof. vm_compute. repeat split. Qed.
+
+(* an interrupt inside _process_futures (ntasks=2): the wait returned both
+   evaluations, the interrupt arrives when learner.tell of the first returns.
+   The second future is done but unprocessed: it is still registered, cancel()
+   has no effect on it, its result is told after remove_unfinished -- and the
+   first point is NOT told again *)
+Example C05_example_interrupt_after_tell :
+  let c := mkcfg Blocking 2 1 0 true true in
+  let s := reach counter c 0 [Goal false; WaitCancel [(1, Ok 11)]; Shutdown [(0, Ok 10)]] in
+  ph s = Stopped Cancelled true /\
+  history s = [TAsk 2 [(0, 0); (1, 1)]; TSubmit 0 0 0; TSubmit 1 1 1; TDone 1 1 (Ok 11); TTell 1 1 11;
+               TRemove; TCancel 0; TDone 0 0 (Ok 10); TTell 0 0 10] /\
+  pend s = [].
 Proof. vm_compute. repeat split. Qed.
 
 Print Assumptions C05_only_handed_out_once.
